@@ -38,7 +38,8 @@ def service_case(draw, auto):
     si['spacing'] = 50e9
     si['baud_rate'] = 32e9
     lib = draw(netgen.edfa_library(n=(2, 4), kinds=('variable_gain', 'fixed_gain')))
-    trx = draw(netgen.transceiver_entries(band=(si['f_min'], si['f_max']), n_modes=(2, 6) if auto else (1, 3)))[:1]
+    trx = draw(netgen.transceiver_entries(band=(si['f_min'], si['f_max']), n_modes=(2, 6) if auto else (1, 3),
+                                          wide_spacing=True, offsets=True))[:1]
     eq = draw(netgen.equipment(edfa=lib, si=si, trx=trx,
                                span=draw(netgen.span_entry(max_length=150, eol=0))))
     chain_kw = {'spans': (1, 2), 'fiber_kw': {'lumped': False, 'per_freq_loss': False, 'overrides': True},
